@@ -237,6 +237,11 @@ Check(e) ==
       [] e.ev = "Files" ->
             IF \E x \in 1..Len(e.names) : e.names[x] = OutBase(tr.files[FileIdx(e.file)].base) \o e.ext THEN ""
             ELSE "output-file-name:" \o e.ext
+      [] e.ev = "FilesNamed" ->
+            \* the schema file carries an unusual name (dots, dashes, no extension): the written file is still
+            \* <base name>_bp<ext>, where only the last dotted part is the extension
+            IF \E x \in 1..Len(e.names) : e.names[x] = OutBase(FileBaseOf(e.parts)) \o e.ext THEN ""
+            ELSE "output-file-name:" \o e.ext \o ":" \o OutBase(FileBaseOf(e.parts))
       [] e.ev = "SameSeq" -> IF e.a = e.b THEN "" ELSE "prefix-changes:" \o e.what
       [] e.ev = "CliTotal" ->
             \* the command line is total too: a diagnostic and exit status 0 or 1, never a traceback
